@@ -792,7 +792,8 @@ def run_index(stratum, index, base_seed, ctx):
     "pristine_final": bool}.  Returns a Run or None (abstract history not applicable)."""
     seed = derive_seed(base_seed, PROPERTY, stratum, index)
     pristine = ctx.get("pristine")
-    pf = bool(ctx.get("pristine_final")) and pristine is not None
+    rate = int(ctx.get("pristine_rate") or 1)
+    pf = bool(ctx.get("pristine_final")) and pristine is not None and seed % rate == 0
     if stratum in STRATA:
         _, length, core = STRATA[stratum]
         run = run_systematic(seed, index, length, core, pristine=pristine, pristine_final=pf)
@@ -931,13 +932,13 @@ PLANS = {
     "quick": {
         "strata": [("A1", 10**9), ("A2", 10**9), ("B:fault_free", 5000), ("B:natural", 7000),
                    ("B:injected", 7000), ("B:mixed", 5000)],
-        "opts": {"pristine": False, "selftest_n": 40},
+        "opts": {"pristine": True, "pristine_rate": 16, "selftest_n": 40},
         "wall_cap_s": 900,
     },
     "thorough": {
         "strata": [("A1", 10**9), ("A2f", 10**9), ("A3", 10**9), ("B:fault_free", 150000),
                    ("B:natural", 250000), ("B:injected", 250000), ("B:mixed", 150000)],
-        "opts": {"pristine": True, "selftest_n": 100},
+        "opts": {"pristine": True, "pristine_rate": 8, "selftest_n": 100},
         "wall_cap_s": 6 * 3600,
     },
 }
